@@ -55,6 +55,36 @@ pub fn watchdog<T: Send + 'static>(f: impl FnOnce() -> T + Send + 'static) -> Op
     }
 }
 
+static LAST_SRC: Mutex<String> = Mutex::new(String::new());
+static ARMED: Mutex<Option<(std::time::Instant, String)>> = Mutex::new(None);
+pub const EXEC_SECS: u64 = 60;
+
+/// Starts the execution monitor: if a guarded execution does not return within EXEC_SECS the process reports the
+/// source on stderr and exits with status 3 (the caller turns that into a violation: non-termination is behaviour).
+pub fn start_exec_monitor() {
+    std::thread::spawn(|| loop {
+        std::thread::sleep(std::time::Duration::from_millis(250));
+        let hit = match ARMED.lock() {
+            Ok(g) => g.as_ref().and_then(|(t0, src)| if t0.elapsed().as_secs() >= EXEC_SECS { Some(src.clone()) } else { None }),
+            Err(_) => None,
+        };
+        if let Some(src) = hit {
+            eprintln!("EXEC-TIMEOUT {}", serde_json::json!({"src": src, "secs": EXEC_SECS}));
+            std::process::exit(3);
+        }
+    });
+}
+fn arm(src: &str) {
+    if let Ok(mut g) = ARMED.lock() {
+        *g = Some((std::time::Instant::now(), src.to_string()));
+    }
+}
+fn disarm() {
+    if let Ok(mut g) = ARMED.lock() {
+        *g = None;
+    }
+}
+
 pub enum Compiled {
     Ok(Program, J),
     Err(J),
@@ -63,6 +93,9 @@ pub enum Compiled {
 
 /// Compile `src`; the AST is exported through the public parser (same entry point).
 pub fn compile(src: &str) -> Compiled {
+    if let Ok(mut g) = LAST_SRC.lock() {
+        *g = src.to_string();
+    }
     let owned = src.to_string();
     // everything that is not Send (the parser's error values) is turned into JSON on the worker thread
     let r = watchdog(move || {
@@ -106,6 +139,7 @@ pub fn execute(prog: &Program, vars: &[(String, Value)], with_zoo: bool) -> (J, 
 /// defaults and the zoo (so they replace a built-in or zoo function of that name).
 pub fn execute_with(prog: &Program, vars: &[(String, Value)], with_zoo: bool, overrides: &[String]) -> (J, Vec<J>) {
     let log = zoo::new_log();
+    arm(&LAST_SRC.lock().map(|g| g.clone()).unwrap_or_default());
     let r = catch_unwind(AssertUnwindSafe(|| {
         let mut ctx = Context::default();
         if with_zoo {
@@ -119,6 +153,7 @@ pub fn execute_with(prog: &Program, vars: &[(String, Value)], with_zoo: bool, ov
         }
         prog.execute(&ctx)
     }));
+    disarm();
     let l = log.lock().map(|g| g.clone()).unwrap_or_default();
     (outcome(r), l)
 }
